@@ -29,6 +29,8 @@ def viaCtor (r : Region) (p1 p2 : List Rat) (units : List String) : M Region :=
 def translateR (r : Region) (v : List Rat) (inplace : Bool) : M (Region × Region) :=
   if v.length ≠ r.ndim then .error .value
   else if inplace then
+    if !allLt r.ndim (fun a => decide ((r.hi a + v.getD a 0) - (r.lo a + v.getD a 0) ≠ 0)) then .error .value
+    else
     .ok ({ r with pmin := tab r.ndim fun a => r.lo a + v.getD a 0,
                   pmax := tab r.ndim fun a => r.hi a + v.getD a 0 },
          { r with pmin := tab r.ndim fun a => r.lo a + v.getD a 0,
@@ -96,6 +98,9 @@ def rotate90R (r : Region) (ax1 ax2 : String) (k : Int) (ref : Option (List Rat)
     | _, .error e => .error e
     | .ok i1, .ok i2 =>
       if inplace then
+        if !allLt r.ndim (fun a => decide (rotCoord r.pmax (ref.getD r.center) i1 i2 k a - rotCoord r.pmin (ref.getD r.center) i1 i2 k a ≠ 0))
+          then .error .value
+        else
         .ok ({ r with pmin := tab r.ndim fun a => min (rotCoord r.pmin (ref.getD r.center) i1 i2 k a) (rotCoord r.pmax (ref.getD r.center) i1 i2 k a),
                       pmax := tab r.ndim fun a => max (rotCoord r.pmin (ref.getD r.center) i1 i2 k a) (rotCoord r.pmax (ref.getD r.center) i1 i2 k a),
                       units := rotUnits r.units i1 i2 k },
